@@ -426,7 +426,8 @@ type Edit struct {
 }
 
 // classes of edits that are not changes to any input (C02)
-var noopEdit = map[string]bool{"touch": true, "samecontent": true, "comment": true, "whitespace": true, "doc": true, "helpernoise": true}
+var noopEdit = map[string]bool{"touch": true, "samecontent": true, "comment": true, "whitespace": true, "doc": true, "helpernoise": true,
+	"junktemp": true, "blockdir": true, "unblockdir": true}
 
 // apply performs the edit on the abstract project and on the tree under root ("" = abstract only).
 func (e *Edit) apply(p *Proj, root string) error {
@@ -497,6 +498,40 @@ func (e *Edit) apply(p *Proj, root string) error {
 	case "helpernoise":
 		p.HelperNoise++
 		rebuild = true
+	case "junktemp": // stray files and directories in .dawn/build/temp (Val entries)
+		if root != "" {
+			tmp := filepath.Join(root, ".dawn", "build", "temp")
+			if err := os.MkdirAll(tmp, 0o755); err != nil {
+				return err
+			}
+			for i := 0; i < e.Val; i++ {
+				name := filepath.Join(tmp, fmt.Sprintf("junk-%s-%d", e.Name, i))
+				if i%2 == 1 {
+					if err := os.MkdirAll(filepath.Join(name, "nested"), 0o755); err != nil {
+						return err
+					}
+					os.WriteFile(filepath.Join(name, "nested", "x"), []byte("junk"), 0o644)
+				} else if err := os.WriteFile(name, []byte("junk"), 0o644); err != nil {
+					return err
+				}
+			}
+		}
+	case "blockdir": // replace a directory by a regular file (Stat of what is below it then fails with ENOTDIR)
+		if root != "" {
+			if err := os.Rename(abs(e.Path), abs(e.Path)+".saved"); err != nil {
+				return err
+			}
+			return os.WriteFile(abs(e.Path), []byte("not a directory\n"), 0o644)
+		}
+	case "unblockdir":
+		if root != "" {
+			os.Remove(abs(e.Path))
+			return os.Rename(abs(e.Path)+".saved", abs(e.Path))
+		}
+	case "truncindex": // cut .dawn/build/index.json after Val bytes
+		if root != "" {
+			return os.Truncate(filepath.Join(root, ".dawn", "build", "index.json"), int64(e.Val))
+		}
 	case "form": // respell a value at one position: Name = the position's key, Text = the form
 		if p.Forms == nil {
 			p.Forms = map[string]string{}
